@@ -1,43 +1,50 @@
 (* C15 - load-time patches reach only the addressed objects and leave no residue.
-   Same model as C14 (Pickle/State.v). The full statement is FALSE of the current code;
-   the refutations below are replayed on the implementation by the harness. *)
-From PW Require Import Pickle.State Pickle.StateProofs.
+   Same model as C14 (Pickle/State.v); the specification [spec] says what every object is restored with:
+   patches address the object they are given for; a dictionary under k addresses the direct child stored under k
+   (its first occurrence) - recursively, to any depth -, any other value under k replaces that entry; an object which
+   is not addressed - a sibling, an object inside a container or inside a plain object, at any depth - is restored
+   with its own state and nothing else. *)
+From PW Require Import Pickle.State Pickle.StateLoops Pickle.StateSteps Pickle.StateProofs.
 Open Scope Z_scope.
 
-(* PARTIAL: with no patches the machine state is restored after every load of a chain
-   (no residue), whatever the depth. *)
-Theorem C15_partial_no_residue_chains :
-  forall c, exists r, load (to_node c) [] None = inr (mkM [] (-1) false [] r).
-Proof. intros c. exists (expected c). exact (chain_loads c). Qed.
+(* every graph, every patch dictionary (nested to any depth): exactly the addressed objects are patched *)
+Theorem C15_patches_reach_exactly_the_addressed_objects :
+  forall g p, announced_structurally g ->
+    exists s, load g p = inr s /\ restored s = spec g (top_patches g p).
+Proof. intros g p H. destruct (load_spec g p H) as [s [A [B _]]]. exists s. split; assumption. Qed.
 
-(* REFUTED: an opt-in object held in a list receives the patch addressed at the top-level
-   object (key 3), which itself stays unpatched *)
-Theorem C15_refuted_container_held_gets_top_level_patch :
-  exists g h s, load g h (Some 0%nat) = inr s /\
-    restored s = [(1%nat, [(3, RAtom 7)]); (0%nat, [(1, RCont)])].
-Proof.
-  exists (Opt 0 true [(1, Lst [Opt 1 true [(3, Atom 9)]])]), [(0%nat, [(3, PVal 7)])].
-  eexists. split; [vm_compute; reflexivity|reflexivity].
-Qed.
+(* no residue: after the load the per-thread stack is empty, the cursor back at -1 - or the patches given for a
+   top-level object which takes none (a list, a plain object) are still where __enter__ put them, to be discarded
+   with the context; the next load starts from [enter] again whatever this one did *)
+Theorem C15_no_residue :
+  forall g p, announced_structurally g -> exists s, load g p = inr s /\ clean_end g p s.
+Proof. intros g p H. destruct (load_spec g p H) as [s [A [_ C]]]. exists s. split; assumption. Qed.
 
-(* REFUTED: a nested patch dictionary of the caller (address 2, two levels down) is modified:
-   the entry for the grandchild is overwritten with the restored object *)
-Theorem C15_refuted_nested_patch_dict_mutated :
-  exists g h s, load g h (Some 0%nat) = inr s /\
-    hget h 1%nat = [(1, PDictRef 2%nat)] /\ hget (hp s) 1%nat = [(1, PObjRef 2%nat)].
-Proof.
-  exists (Opt 0 true [(1, Opt 1 true [(1, Opt 2 true [(3, Atom 9)])])]),
-         [(0%nat, [(1, PDictRef 1%nat)]); (1%nat, [(1, PDictRef 2%nat)]); (2%nat, [(3, PVal 8)])].
-  eexists. split; [vm_compute; reflexivity|split; reflexivity].
-Qed.
+(* objects that are not addressed get exactly their own state: the specification of an unaddressed position does not
+   depend on the patches at all *)
+Theorem C15_unaddressed_positions_ignore_patches :
+  forall items p, spec (Lst items) p = spec (Lst items) [] /\ forall f, spec (PObj f) p = spec (PObj f) [].
+Proof. intros. split; [rewrite !spec_lst; reflexivity|intros; rewrite !spec_pobj; reflexivity]. Qed.
 
-(* a correct two-level case, as in the test suite: top-level key and one nested dict *)
-Example C15_example_two_levels :
-  exists s, load (Opt 0 true [(1, Atom 5); (2, Opt 1 true [(3, Atom 9)])])
-                 [(0%nat, [(1, PVal 7); (2, PDictRef 1%nat)]); (1%nat, [(3, PVal 8)])] (Some 0%nat) = inr s
-            /\ restored s = [(1%nat, [(3, RAtom 8)]); (0%nat, [(1, RAtom 7); (2, RObj 1)])].
+Example C15_example_three_levels_siblings_and_container :
+  exists s, load (Opt 0 true [(1, Opt 1 true [(3, Atom 9); (4, Opt 2 true [(3, Atom 8)])]); (2, Lst [Opt 3 true [(3, Atom 7)]]); (5, Opt 4 true [(3, Atom 6)]); (3, Atom 0)])
+                 [(3, PVal 30); (5, PDict [(3, PVal 60)]); (1, PDict [(4, PDict [(3, PVal 80)])]); (2, PVal 5)] = inr s
+            /\ restored s = [(2%nat, [(3, RAtom 80)]); (1%nat, [(3, RAtom 9); (4, RObj 2)]); (3%nat, [(3, RAtom 7)]); (4%nat, [(3, RAtom 60)]);
+                             (0%nat, [(1, RObj 1); (2, RAtom 5); (5, RObj 4); (3, RAtom 30)])].
 Proof. eexists. split; [vm_compute; reflexivity|reflexivity]. Qed.
 
-Print Assumptions C15_partial_no_residue_chains.
-Print Assumptions C15_refuted_container_held_gets_top_level_patch.
-Print Assumptions C15_refuted_nested_patch_dict_mutated.
+(* REFUTED in the strict reading (known finding): a dictionary patch under k when the child stored under k is only
+   referred to from there (its first occurrence is elsewhere) does not override that child's state - the child is
+   restored where it occurs first, without the patch; the holder keeps the child *)
+Theorem C15_refuted_dict_patch_for_a_child_that_is_only_referred_to :
+  exists g p s, announced_structurally g /\ load g p = inr s
+    /\ restored s = [(1%nat, [(3, RAtom 9)]); (2%nat, [(5, RObj 1)]); (0%nat, [(1, RObj 1); (2, RObj 2)])].
+Proof.
+  exists (Opt 0 true [(1, Opt 1 true [(3, Atom 9)]); (2, Opt 2 true [(5, Ref 1)])]), [(2, PDict [(5, PDict [(3, PVal 7)])])].
+  eexists. split; [vm_compute; reflexivity|]. split; [vm_compute; reflexivity|reflexivity].
+Qed.
+
+Print Assumptions C15_patches_reach_exactly_the_addressed_objects.
+Print Assumptions C15_no_residue.
+Print Assumptions C15_unaddressed_positions_ignore_patches.
+Print Assumptions C15_refuted_dict_patch_for_a_child_that_is_only_referred_to.
